@@ -11,13 +11,13 @@ from collections import OrderedDict
 ID = "C17"
 
 RULE = ("each run = one operation history (construction + 3..25 mapping operations, keys from a pool of "
-        "48 spellings of 15 names incl. bytes (some with a UTF-8 byte order mark), sharp-s, dotless-i and digraph case variants) on one of "
+        "51 spellings of 16 names incl. bytes (some with a UTF-8 byte order mark), sharp-s, dotless-i and digraph case variants) on one of "
         "CaselessDict/Parameters/Component/Event/Calendar/Timezone, executed step by step against a "
         "reference dict keyed by to_unicode(key).upper(); non-trivial = the history reached at least one "
         "probe (case-variant hit, failing op checked for atomicity, derived object adopted, ...); distinct = "
         "distinct abstract histories (class, op kinds, key-case class and present/absent per step)")
-STATE_MEASURE = "distinct sets of upper-cased names stored (15 names -> 32768 possible)"
-STATE_SPACE = 32768
+STATE_MEASURE = "distinct sets of upper-cased names stored (16 names -> 65536 possible)"
+STATE_SPACE = 65536
 HARNESS_COMPONENTS = ["history generator", "reference dict model", "failing-iterable fault"]
 ASSUMPTIONS = [
     "pop(key) is compared with dict.pop(KEY, None): the classes declare default=None themselves",
@@ -42,7 +42,7 @@ REQUIRED_PROBES["thorough"] = REQUIRED_PROBES["quick"]
 
 CLASSES = ["CaselessDict", "Parameters", "Component", "Event", "Calendar", "Timezone"]
 
-# 48 spellings of 15 names
+# 51 spellings of 16 names
 NAMES = {
     "SUMMARY": [["s", "summary"], ["s", "SUMMARY"], ["s", "Summary"], ["s", "sUmMaRy"],
                 ["b", "summary"], ["b", "SUMMARY"], ["bom", "Summary"]],
@@ -61,6 +61,8 @@ NAMES = {
     "A_B": [["s", "a_b"], ["s", "A_B"], ["b", "A_b"]],
     "AAB": [["s", "aab"], ["s", "AAB"], ["s", "Aab"]],
     "A^": [["s", "a^"], ["s", "A^"]],
+    # a name that is also the name of a component kind (a component may hold such subcomponents)
+    "VEVENT": [["s", "vevent"], ["s", "VEVENT"], ["b", "Vevent"]],
     # bytes that are not UTF-8: decoded with replacement characters (one per undecodable byte), like any other name
     "\ufffdX": [["s", "\ufffdx"], ["s", "\ufffdX"], ["braw", "ff78"], ["braw", "ff58"]],
 }
@@ -127,7 +129,7 @@ OPS = [
     ("pop", 5), ("pop_default", 3), ("popitem", 2), ("setdefault", 4), ("setdefault_none", 2),
     ("update", 6), ("update_failing", 3), ("copy", 3), ("or", 2), ("ror", 2), ("ior", 2),
     ("fromkeys", 1), ("clear", 1), ("len", 2), ("listing", 3), ("eq", 4), ("sorted", 4), ("has_key", 2),
-    ("iter", 1), ("noise_decode", 2), ("comp_add", 4),
+    ("iter", 1), ("noise_decode", 2), ("comp_add", 4), ("attach_sub", 1.5),
 ]
 
 
@@ -191,6 +193,8 @@ def generate(rng, cfg):
             a["adopt"] = rng.random() < 0.3
         elif op == "noise_decode":
             a["specs"] = [rng.choice(BYTES_SPECS) for _ in range(rng.randint(1, 2))]
+        elif op == "attach_sub":
+            a["kind"] = rng.choice(["VEVENT", "VEVENT", "VALARM"])
         elif op == "eq":
             a["other"] = rng.choice(["upper_dict", "same_anycase", "same_anycase", "differs", "other_class", "renamed"])
             a["spell"] = rng.randrange(1 << 30)
@@ -407,6 +411,14 @@ def execute(run, res):
         res.ops[op] += 1
         if op == "noise_decode":
             _noise_decode(res, a["specs"])
+            _invariants(res, stepno, op, d, model, cls, clsname)
+            continue
+        if op == "attach_sub":
+            # a component gets a subcomponent: no business of the mapping, which must go on as before
+            if hasattr(d, "add_component"):
+                import icalendar.cal as _C
+                d.add_component(_C.Event() if a.get("kind", "VEVENT") == "VEVENT" else _C.Alarm())
+                res.probe("component_has_subcomponents")
             _invariants(res, stepno, op, d, model, cls, clsname)
             continue
         if "k" in a:
@@ -629,6 +641,9 @@ def _check_eq(res, stepno, d, model, cls, clsname, a):
     g = random.Random(a["spell"])
     is_comp = clsname not in ("CaselessDict", "Parameters")
     kind = a["other"]
+    subs = list(getattr(d, "subcomponents", []) or [])
+    if subs and kind in ("upper_dict", "other_class"):
+        kind = "same_anycase"      # a component with subcomponents is compared with components that have them, too
     if kind == "other_class" and is_comp:
         # a component (without subcomponents) and a plain caseless map with the same content
         from icalendar.caselessdict import CaselessDict
@@ -679,6 +694,8 @@ def _check_eq(res, stepno, d, model, cls, clsname, a):
             m2["EXTRA"] = 1
         other = cls(m2)
         want = False
+    if subs and hasattr(other, "subcomponents"):
+        other.subcomponents = list(subs)
     try:
         got = [d == other, other == d, d != other, other != d]
     except Exception as e:
